@@ -98,3 +98,11 @@ Theorem pair_token_order_of_source_is_model :
     (gen_token_ordering_for_lists (PList (map (fun l => PList (map PInt l)) lists)))
   = PList (map PInt (order (List.concat lists) toks)).
 Proof. exact order_using_gen_lists. Qed.
+
+(* ---- tie: the per-chunk functions generated from the source (Gen/JoinGen.v, regenerated every
+   run) produce, up to a permutation, exactly the rows of the pairwise model + projection *)
+From SSJ Require Import JoinGen SplitRefineBase SplitRefineOverlapFilter SplitRefineOvc SplitRefineFilterBase SplitRefineFilterSize SplitRefineFilterPrefix SplitRefineFilterPosition SplitRefineFilters SplitRefineEd SplitRefineProj SplitRefineProjAll SplitRefineOvcArith.
+Theorem generated_edit_distance_split_refines_model :
+  ltac:(let t := type of edit_distance_join_split_rows_refines_proj in exact t).
+Proof. exact edit_distance_join_split_rows_refines_proj. Qed.
+Print Assumptions generated_edit_distance_split_refines_model.
